@@ -242,3 +242,52 @@ def run(prog, chk):
                 else:
                     chk.ok("C06.g", f, "argument %d of %s is not own text" % (k, f.nodes[c]["callee"]), f.where(c), t[:40])
     R.exclusive_guard(prog, chk, "C06.b", ("String",), floor=4)
+    formatted_length(prog, chk, fs)
+
+
+def formatted_length(prog, chk, fs):
+    """vsnprintf(dst, S, ...) writes at most S - 1 characters and returns the length the full output needs: the returned length may be
+    stored as the String's length only when it is below S (or S was sized as length + 1 after measuring)"""
+    chk.rule("C06.h", "TBL: a length returned by vsnprintf(dst, S, ...) is accepted as the String's length only under `result < S` with the same S, "
+                      "or when S is the measured length + 1", floor=4)
+    for f in fs:
+        vs = [c for c in q.calls(f) if f.nodes[c].get("callee") == "vsnprintf"]
+        if not vs:
+            continue
+        defs = q.local_defs(f)
+        lens = [s for s in q.stores(f) if re.search(r"->len$", q.no_casts(f.r(s.lhs))) and s.rhs is not None]
+        for s in lens:
+            rv = q.no_casts(f.r(s.rhs))
+            # the vsnprintf whose result this is: the last one that reaches the store without another in between
+            src = [c for c in vs if q.reaches(f, c, s.node) and not any(o != c and q.reaches(f, c, o) and q.reaches(f, o, s.node) for o in vs)]
+            if not src:
+                continue
+            c = src[0]
+            args = q.call_args(f, c)
+            if q.is_zero(f, args[1]):
+                continue
+            S = q.no_casts(f.r(args[1]))
+            atoms = fin.dominating_atoms(f, f.node_pos(s.node))
+            ok = None
+            for a in atoms:
+                if a[0] == "case" or not a[1]:
+                    continue
+                k = q.no_casts(fin.key(f, a[0]))
+                if k == "(%s < %s)" % (rv, S):
+                    ok = "result < size given to vsnprintf"
+                if k == "(%s <= (%s - 1))" % (rv, S):
+                    ok = "result <= size - 1"
+            if ok is None and S == "(%s + 1)" % rv:
+                # second pass: the size is the measured length + 1, and the block was detached for that length
+                meas = [o for o in vs if q.is_zero(f, q.call_args(f, o)[1]) and q.reaches(f, o, c)]
+                det = [d for d in q.calls(f) if f.nodes[d].get("callee") == "String::detach" and q.reaches(f, d, c) and
+                       q.no_casts(f.r(q.call_args(f, d)[1])) == rv]
+                if meas and det:
+                    ok = "size is the measured length + 1 after detach(0, length)"
+            if ok:
+                chk.ok("C06.h", f, "len = %s accepted: %s" % (rv, ok), f.where(s.node), "dominating atom / size shape", evals=len(atoms) + 1)
+            else:
+                facts = [q.no_casts(fin.key(f, a[0])) for a in atoms if a[0] != "case" and a[1] and rv in fin.key(f, a[0])]
+                chk.bad("C06.h", f, "formatted-length-accepted-beyond-buffer", f.where(s.node),
+                        "`%s` stores the value returned by vsnprintf(dst, %s, ...) as the length although the dominating tests (%s) do not establish "
+                        "it is below %s: vsnprintf wrote only %s - 1 characters, the String reports a length whose last byte is the terminator" % (f.r(s.node)[:50], S, facts, S, S))
